@@ -597,6 +597,7 @@ MUTANTS = [
     dict(id="C07-M2", file=_S, old="for condition in self.train_conditions:\n            cond_loss", new="for condition in self.train_conditions[1:]:\n            cond_loss", rule="R-C07-1", what="first condition skipped"),
     dict(id="C07-M3", file=_S, old="iteration=self.n_training_step)", new="iteration=batch_idx)", rule="R-C07-1", what="wrong step index"),
     dict(id="C07-M4", file=_S, old="        self.log('train/loss', loss, prog_bar=True)\n        self.n_training_step += 1", new="            self.n_training_step += 1\n        self.log('train/loss', loss, prog_bar=True)", rule="R-C07-1", what="counter inside the loop"),
+    dict(id="C07-M13", file=_S, old="        self.n_training_step += 1\n        return loss\n", new="        self.n_training_step += 1\n        return loss\n\n    def optimizer_zero_grad(self, epoch, batch_idx, optimizer):\n        optimizer.zero_grad(set_to_none=False)\n", rule="R-C07-9", what="gradients zeroed instead of freed"),
     dict(id="C07-M5", file=_S, old="self.train_conditions = nn.ModuleList(train_conditions)", new="self.train_conditions = list(train_conditions)", rule="R-C07-2", what="plain list"),
     dict(id="C07-M6", file=_C, old="class SingleModuleCondition(Condition):", new="class SingleModuleCondition(Condition):\n    def register_parameter(self, *a):\n        pass\n", rule=None, what="(control: not detectable syntactically; expected skipped or unreported)" ),
     dict(id="C07-M7", file=_M, old="return grad_output.neg()", new="return grad_output.clone()", rule="R-C07-4", what="gradient not reversed"),
@@ -613,4 +614,5 @@ TWINS = [
     dict(id="C07-T3", edits=[dict(file=_S, old="for condition in self.train_conditions:\n            cond_loss = condition(device=self.device, iteration=self.n_training_step)\n            self.log(f\"train/{condition.name}\", cond_loss)\n            loss = loss + condition.weight * cond_loss",
                                   new="for cnd in self.train_conditions:\n            step = self.n_training_step\n            cl = cnd(device=self.device, iteration=step)\n            self.log(f\"train/{cnd.name}\", cl)\n            loss = loss + cnd.weight * cl")], what="renamed variables"),
     dict(id="C07-T4", file=_M, old="return grad_output.neg()", new="return -grad_output", what="unary minus"),
+    dict(id="C07-T5", file=_S, old="        self.n_training_step += 1\n        return loss\n", new="        self.n_training_step += 1\n        return loss\n\n    def optimizer_zero_grad(self, epoch, batch_idx, optimizer):\n        return super().optimizer_zero_grad(epoch, batch_idx, optimizer)\n", what="a loop hook that only forwards to the trainer's own"),
 ]
